@@ -7,7 +7,8 @@ EXPLANATION = ("Decides on the MIR of the current tree: new branches record the 
                "skip_branch() over (skipping, exploring) incl. both assertion messages (B2, 4 states x 3 operations); the branch-capacity "
                "assertion with the documented message before every insertion (B3); the thread-limit assertions (B4); max_permutations / "
                "max_duration tested with >= only on the checkpoint boundary and ending the run with a plain return (B5). Subset/validity of "
-               "result sets under the controls is not decided.")
+               "result sets under the controls is not decided."
+               " Recording a race does not depend on the exploring flag (T4 wiring, extra-guard clause); each of max_permutations / max_duration ends the run whatever the other is (B5 independence); the branch limit is compared against the configured value (B3 limit); G0/G1 cross-check backtrack/branch.")
 RULE_TEXT = "rule instances = insertion sites, state-machine cells, limit tests; non-trivial when matched to concrete MIR sites"
 LEVEL_NOTE = "necessary conditions only"
 
